@@ -38,14 +38,37 @@ func ruleTXIDCOMPARE(p *Program, rep *Report) {
 	rep.Rule("TXID-COMPARE", 1, "two header transaction ids are never ordered by a direct <, <=, >, >= comparison (the counter wraps); the newer header is selected through the sign of the difference")
 	meta := p.Named("txfile", "metaPage")
 	txid := p.FieldVar("txfile", "metaPage", "txid")
-	isTxid := func(v ssa.Value) bool {
-		return derivesFrom(v, func(b ssa.Value) bool { return fieldGetOf(b, meta) == txid }, 0, map[ssa.Value]bool{})
+	// a value is a transaction id if it derives from metaPage.txid.Get(), or from a parameter that every
+	// call site feeds with one (the comparison may live in a helper)
+	var isTxidIn func(fn *ssa.Function, v ssa.Value, depth int) bool
+	isTxidIn = func(fn *ssa.Function, v ssa.Value, depth int) bool {
+		return derivesFrom(v, func(b ssa.Value) bool {
+			if fieldGetOf(b, meta) == txid {
+				return true
+			}
+			if pi := paramIndex(fn, b); pi >= 0 && depth < 2 {
+				sites := p.callIndex().sites[fn]
+				if len(sites) == 0 {
+					return false
+				}
+				for _, s := range sites {
+					if pi >= len(s.Common().Args) || !isTxidIn(s.Parent(), s.Common().Args[pi], depth+1) {
+						return false
+					}
+				}
+				return true
+			}
+			return false
+		}, 0, map[ssa.Value]bool{})
 	}
+	var curFn *ssa.Function
+	isTxid := func(v ssa.Value) bool { return isTxidIn(curFn, v, 0) }
 	n := 0
 	for _, fn := range p.SrcFuncs() {
 		if fnPkgPath(fn) != modPath {
 			continue
 		}
+		curFn = fn
 		for _, b := range fn.Blocks {
 			for _, ins := range b.Instrs {
 				bo, ok := ins.(*ssa.BinOp)
